@@ -167,6 +167,7 @@ func (l *Link) AcceptStream() (stream.Stream, stream.OpenOpts, error) {
 // Close closes the connection.
 func (l *Link) Close() error {
 	l.closedOnce.Do(func() {
+		verifGate("quic.close", nil, "", l, false)
 		l.ctxCancel()
 		if closed := l.closed; closed != nil {
 			closed()
